@@ -34,6 +34,15 @@ enum Class {
     IllTyped,     // a scalar holding a constant of another width (tie only)
     BitWidth,     // load / store of a width that is not a multiple of 8
     Relift,       // indirect branch outside the program (tie only)
+    BothFail,     // store whose src divides by zero AND whose index reads an undefined scalar (order of evaluation)
+    GuardErrFirst, // first guard of a fan reads an undefined scalar, a later guard holds
+}
+
+/// pool + the scalar `u`, which no generated operation assigns and no initial state defines
+fn names_all() -> Vec<(String, usize)> {
+    let mut v = pool();
+    v.push(("u".into(), 32));
+    v
 }
 
 fn rand_const(r: &mut Rng, bits: usize) -> Constant {
@@ -196,6 +205,27 @@ fn build_program(r: &mut Rng, class: Class) -> Built {
             let t = 0x7000_0000 + 4 * r.below(4);
             mutate_op(r, f0, false, Operation::branch(il::expr_const(t, o.addr_bits)));
         }
+        Class::BothFail => {
+            let src = Expression::divu(il::expr_scalar("a", 32), il::expr_const(0, 32)).unwrap();
+            let idx = match o.addr_bits {
+                32 => Expression::add(il::expr_const(0x1000, 32), Expression::and(il::expr_scalar("u", 32), il::expr_const(7, 32)).unwrap()).unwrap(),
+                _ => Expression::add(il::expr_const(0x1000, 64), Expression::zext(64, il::expr_scalar("u", 32)).unwrap()).unwrap(),
+            };
+            mutate_op(r, f0, false, Operation::store(idx, src));
+        }
+        Class::GuardErrFirst => {
+            let cands = fans(f0, 2, 2);
+            if let Some(h) = cands.first().copied() {
+                let tails: Vec<usize> = f0.control_flow_graph().edges_out(h).unwrap().iter().map(|e| e.tail()).collect();
+                let bad = Expression::cmpeq(il::expr_scalar("u", 32), il::expr_const(r.below(3), 32)).unwrap();
+                if let Some(c) = f0.control_flow_graph_mut().edge_mut(h, tails[0]).unwrap().condition_mut() {
+                    *c = bad;
+                }
+                if let Some(c) = f0.control_flow_graph_mut().edge_mut(h, tails[1]).unwrap().condition_mut() {
+                    *c = il::expr_const(1, 1);
+                }
+            }
+        }
         Class::Unmapped => {
             let a = il::expr_const(0x3000 + r.below(4), o.addr_bits);
             let d = *r.pick(&[("a", 32usize), ("x", 8), ("q", 64), ("h", 16)]);
@@ -228,9 +258,12 @@ fn initial_state(r: &mut Rng, class: Class, names: &[(String, usize)]) -> (State
     }
     let mut st = State::new(mem);
     for (n, w) in names {
+        if n == "u" {
+            continue;
+        }
         let skip = match class {
             Class::Undef => r.chance(1, 3),
-            _ => r.chance(1, 40),
+            _ => r.chance(1, 80),
         };
         if skip {
             continue;
@@ -296,7 +329,8 @@ fn fan_tag(d: &Driver) -> Option<String> {
 fn gen_case(seed: u64, index: u64) -> Case {
     let mut r = Rng::for_case(seed, index);
     let class = match r.below(100) {
-        0..=61 => Class::Valid,
+        0..=60 => Class::Valid,
+        61 => Class::GuardErrFirst,
         62..=66 => Class::Undef,
         67..=70 => Class::Unmapped,
         71..=74 => Class::Div,
@@ -307,12 +341,14 @@ fn gen_case(seed: u64, index: u64) -> Case {
         86..=87 => Class::SingleFalse,
         88..=89 => Class::StoreTop,
         90..=91 => Class::AddrBits,
-        92..=94 => Class::IllTyped,
-        95..=97 => Class::BitWidth,
+        92..=93 => Class::IllTyped,
+        94..=95 => Class::BitWidth,
+        96..=97 => Class::BothFail,
+        98 => Class::GuardErrFirst,
         _ => Class::Relift,
     };
     let built = build_program(&mut r, class);
-    let names = pool();
+    let names = names_all();
     let (state, big) = initial_state(&mut r, class, &names);
     let program = built.program;
     let mut tags = built.tags;
@@ -340,7 +376,9 @@ fn gen_case(seed: u64, index: u64) -> Case {
     let mut fin = "FSteps".to_string();
     let mut end_kind = "steps".to_string();
     let mut exec_tags: std::collections::BTreeSet<String> = Default::default();
-    for _ in 0..MAX_STEPS {
+    // long runs are expensive to type-check as Gallina literals: one case in four gets the full budget
+    let max_steps = if r.chance(1, 4) { MAX_STEPS } else { 48 };
+    for _ in 0..max_steps {
         let mut windows = vec![(ARENA_LO, ARENA_HI)];
         if let Some(w) = store_window(&driver) {
             windows.push(w);
@@ -390,7 +428,7 @@ fn gen_case(seed: u64, index: u64) -> Case {
         }
     }
     tags.push(format!("end:{}", end_kind));
-    tags.push(format!("steps:{}", match steps.len() { 0 => "0", 1..=4 => "1-4", 5..=19 => "5-19", 20..=99 => "20-99", 100..=199 => "100-199", _ => "200" }));
+    tags.push(format!("steps:{}", match steps.len() { 0 => "0", 1..=4 => "1-4", 5..=19 => "5-19", 20..=47 => "20-47", 48 => "48", 49..=199 => "49-199", _ => "200" }));
     for t in exec_tags.iter() { tags.push(t.clone()); }
     let nblocks: usize = program.functions().iter().map(|f| f.blocks().len()).sum();
     tags.push(format!("blocks:{}", nblocks));
